@@ -555,7 +555,7 @@ void do_case(const ev::Cmd& c) {
     }
     // probes for names that point outside the scanned tree
     std::vector<fs::path> probes;
-    if (has_name) {
+    if (has_name && name.find('\0') == std::string::npos) {      // a path with an embedded NUL cannot be probed (the C string ends there)
         probes.push_back((target / name).lexically_normal());
         if (!name.empty() && name[0] == '/') probes.push_back(fs::path(name).lexically_normal());
     }
